@@ -60,8 +60,9 @@ PROPS['C16'] = dict(
     coq_targets=['Proofs/TablesLib.vo', 'Proofs/TablesEq.vo', 'Proofs/TablesMeaning.vo', 'Proofs/SweepBetween.vo', 'Proofs/SweepLine.vo', 'Proofs/FiniteFnsEq.vo'],
     prop_files=['C16a', 'C16b'],
     scope='complete domains (64 squares, 64x64 pairs, 64^3 triples, 2 colours, 8 ranks/files) of the translated tables and of the tabulated public functions; all 2^64 blocker words for the three pawn accessors',
-    streams=lambda tier: [dict(stages=[H('pawnfns', sz(tier, 8, 400)), D('pawnfns')], shards=1, min_stat={'pawn_calls': 4464})],
-    tags=['pawn_.*', 'oracle_pawn_.*'] + COMMON_MODEL_TAGS,
+    streams=lambda tier: [dict(stages=[H('pawnfns', sz(tier, 8, 400)), D('pawnfns')], shards=1, min_stat={'pawn_calls': 4464}),
+                          dict(stages=[H('dumpfns'), D('fns')], shards=1, min_stat={'fn_points': 9000})],
+    tags=['pawn_.*', 'oracle_pawn_.*', 'oracle_table'] + COMMON_MODEL_TAGS,
     eval_stat='pawn_calls',
     rule='the tabulation of every finite-domain function is exhaustive (translator, re-proved by Coq each run); the three blocker accessors additionally run on every combination of their relevant squares x random noise elsewhere against the model and the movement rule; distinct = (colour, square, blockers) triples',
     exhaustive=True,
@@ -114,7 +115,7 @@ PROPS['C01'] = dict(
     coq_targets=['Proofs/GenWF.vo', 'Proofs/GenWFBoard.vo', 'Proofs/StatusModel.vo'],
     prop_files=['C01a'],
     scope='see theorem list; the full refinement statement is kept as C01_full',
-    streams=lambda tier: [pos_stream(tier, 14, 900, 'full')],
+    streams=lambda tier: [pos_stream(tier, 14, 900, 'full')] + ([dict(stages=[H('endgame', 1), D('pos')], shards=16, seed_off=9)] if tier == 'thorough' else []),
     tags=['moves', 'oracle_moves', 'oracle_dup', 'legal_query.*', 'legal_quick.*', 'len0', 'len_vs_count', 'enumerate_moves', 'overflow', 'size_hint', 'obs_ch', 'obs_pin'] + COMMON_MODEL_TAGS,
     rule=POS_RULE + '; every 16th position additionally runs Board::legal on all 20480 triples',
 )
@@ -133,10 +134,13 @@ PROPS['C03'] = dict(
     tags=['obs_.*', 'oracle_checkers', 'oracle_pinned', 'reparse', 'succfs_.*', 'succ_ch', 'succ_pin', 'null_.*', 'nullfs_.*', 'impl_sane'] + COMMON_MODEL_TAGS,
     rule=POS_RULE,
 )
+# C04: the thorough tier enumerates every K+X v K placement (X any piece of either colour, either
+# side to move: about 4.3 million accepted positions); the quick tier samples every 400th.
 PROPS['C04'] = dict(
     coq_targets=['Proofs/GenWF.vo', 'Proofs/GenWFBoard.vo', 'Proofs/StatusModel.vo'],
     scope='see theorem list',
-    streams=lambda tier: [pos_stream(tier, 20, 1200, 'nosucc')],
+    streams=lambda tier: [pos_stream(tier, 20, 1200, 'nosucc'),
+                          dict(stages=[H('endgame', sz(tier, 400, 1)), D('pos')], shards=16, seed_off=9, min_stat={'valid_positions': 500})],
     tags=['status_model', 'oracle_status', 'len0', 'len_vs_count', 'moves', 'obs_ch'] + COMMON_MODEL_TAGS,
     rule=POS_RULE,
 )
